@@ -161,6 +161,16 @@ fn nonws_clusters(s: &str, g: bool) -> Vec<String> {
 }
 
 fn word(rng: &mut Rng, _g: bool, seam: bool, ascii_only: bool) -> String {
+    if rng.chance(1, 25) {
+        // a word that spells a special token of the task's tokenizer, or nearly: the task must still get one
+        // token id and one label per character of it (special tokens are ordinary text in a training input)
+        let t = *rng.pick(&SPECIAL_TOKENS[..]);
+        return match rng.below(4) {
+            0 => t[..t.len() - 1].to_string(),
+            1 => format!("x{t}"),
+            _ => t.to_string(),
+        };
+    }
     let n = rng.range(1, 4);
     let mut w = String::new();
     for _ in 0..n {
@@ -475,7 +485,9 @@ impl Prop for C14 {
                         tokenizer_cfg(g, np, ns),
                     ));
                     match task(&TrainData::new(c2, Some(t2))) {
-                        Ok(TrainTaskInput::SequenceClassification { labels, .. }) => Some(labels),
+                        // one label per token id (prefix and suffix included): labels that do not line up with the
+                        // ids the model will see are no labels
+                        Ok(TrainTaskInput::SequenceClassification { labels, token_ids, .. }) if labels.len() == token_ids.len() => Some(labels),
                         _ => None,
                     }
                 });
